@@ -1,6 +1,7 @@
 package main
 
 import (
+	"bytes"
 	"crypto/sha256"
 	"fmt"
 
@@ -93,6 +94,28 @@ func init() {
 						}
 					}
 					rec(nil)
+				}
+			}
+		}
+		// "a 32-byte preimage": a secret of another length whose SHA-256 is the payment hash must not open the output
+		for ci, csv := range csvs {
+			for _, l := range []int{1, 20, 31, 33, 64} {
+				e := newScriptEnv(csv, fmt.Sprint("len", ci, l))
+				secret := bytes.Repeat([]byte{byte(0x40 + l)}, l)
+				h := sha256.Sum256(secret)
+				sc, err := onchain.GetOpeningTxScript(e.taker.PubKey().SerializeCompressed(), e.maker.PubKey().SerializeCompressed(), h[:], csv)
+				if err != nil {
+					continue
+				}
+				e.script, e.hash, e.preimage = sc, h[:], secret
+				wp := sha256.Sum256(sc)
+				e.pkScript = append([]byte{0x00, 0x20}, wp[:]...)
+				tx := e.spendTx(0, 2)
+				res.Evaluations++
+				res.Distinct++
+				res.Histogram["short/long secret with matching hash"]++
+				if e.run(tx, [][]byte{e.sign(tx, e.taker, e.amount), secret, {}, {}}) {
+					res.addFinding(fmt.Sprintf("C02/unintended-spend/preimage-of-%d-bytes", l), "the taker path accepts a secret that is not 32 bytes long (its SHA-256 is the payment hash)", map[string]interface{}{"csv": csv, "secret_length": l})
 				}
 			}
 		}
